@@ -182,9 +182,10 @@ impl SsaAnalysisState {
 //@end
 
 //@extractblock crates/samlang-checker/src/ssa_analysis.rs :: impl<'a> SsaAnalysisState<'a> / fn visit_expression
-//@from #1 self.visit_expression(&e.object);
+//@from expr::E::FieldAccess(e) => { self.visit_expression(&e.object);
+//@replace expr::E::FieldAccess(e) => { ==>> { ## R14: the arm header is part of the anchor; its binding is the parameter of the synthetic function
 //@to self.visit_annot(targ);
-//@close }
+//@close } }
 //@after self.visit_annot(targ);
     }
 //@replace for targ in e.explicit_type_arguments.iter().flat_map(|it| &it.arguments) => if let Some(it) = &e.explicit_type_arguments { for targ in iter: it.arguments.iter() ## R17: Option::iter().flat_map(|it| &it.F) walks the payload's vector if there is one
@@ -205,9 +206,10 @@ impl SsaAnalysisState {
 //@end
 
 //@extractblock crates/samlang-checker/src/ssa_analysis.rs :: impl<'a> SsaAnalysisState<'a> / fn visit_expression
-//@from #2 self.visit_expression(&e.object);
+//@from expr::E::MethodAccess(e) => { self.visit_expression(&e.object);
+//@replace expr::E::MethodAccess(e) => { ==>> { ## R14: the arm header is part of the anchor; its binding is the parameter of the synthetic function
 //@to self.visit_annot(targ);
-//@close }
+//@close } }
 //@after self.visit_annot(targ);
     }
 //@replace for targ in e.explicit_type_arguments.iter().flat_map(|it| &it.arguments) => if let Some(it) = &e.explicit_type_arguments { for targ in iter: it.arguments.iter() ## R17: Option::iter().flat_map(|it| &it.F) walks the payload's vector if there is one
